@@ -38,7 +38,7 @@ def gen_cases(ctx):
                         bars = [(b[0], b[1], b[2], b[3], b[4]) for b in bars]
                     feeds = [("b", 0) + b for b in bars]
                 else:
-                    st = rot.pick((ind, "n"), ["walk", "ties", "periodic", "pgrid", "flatafter", "segments", "uniform", "ulps"])
+                    st = rot.pick((ind, "n"), ["walk", "ties", "periodic", "pgrid", "flatafter", "segments", "uniform", "ulps", "tight"])
                     feeds = [("n", 0, x) for x in scalar_stream(r, n, st, p=p, positive=True)]
                 cases.append(Case("%s_g%d_%d" % (ind, gi, rep), [new_op(0, ind, pr)] + feeds, dump=(0,) if p <= 64 else (),
                                   meta={"ind": ind, "params": pr, "n": n, "style": st}))
